@@ -543,7 +543,54 @@ def r15_12(ctx: Ctx) -> None:
                   "entries of the same call archived before it: after close the archive holds 'tree', 'tree/a.txt' although the writeall('tree') call raised", construct="writeall not all-or-nothing")
 
 
+def r15_15(ctx: Ctx, rule: str = "R15.15") -> None:
+    """what R15.7's handlers compare is the number of SOURCE bytes taken: SevenZipCompressor.consumed returns the counter of the FIRST
+    stage of the chain (the entry of `_unpacksizes` that compress() increases by the length of what it read, before any coder has seen it:
+    index 0 of the enumeration over `self.chain`).  The counter of a later stage moves only when the stages before it emit output - LZMA2
+    in front of 7zAES buffers a whole block - so a source that fails after a full block has been read would pass for untouched."""
+    try:
+        f = ctx.prog.func("compressor", "SevenZipCompressor.consumed")
+    except Exception:
+        f = None
+    if f is None:
+        ctx.note(f"{rule}: SevenZipCompressor.consumed not present (R15.7 decides what the handlers look at)")
+        return
+    comp = ctx.prog.func("compressor", "SevenZipCompressor.compress")
+    # the per-stage counters: `self.X[i] += len(data)` inside `for i, c in enumerate(self.chain)`
+    staged = set()
+    direct = set()
+    for n in walk(comp.node):
+        if isinstance(n, ast.AugAssign) and isinstance(n.op, ast.Add):
+            lps = q.enclosing_loops(comp, n)
+            in_chain = any(isinstance(l, ast.For) and "self.chain" in norm(l.iter) for l in lps)
+            if isinstance(n.target, ast.Subscript) and isinstance(n.target.value, ast.Attribute) and in_chain:
+                staged.add(n.target.value.attr)
+            elif isinstance(n.target, ast.Attribute) and not in_chain and isinstance(n.value, ast.Call) and dotted(n.value.func) == "len":
+                direct.add(n.target.attr)
+    rets = [r for r in walk(f.node) if isinstance(r, ast.Return) and r.value is not None]
+    ctx.floor(rule, len(rets), 1, "returns of SevenZipCompressor.consumed")
+    for r in rets:
+        subs = [x for x in ast.walk(r.value) if isinstance(x, ast.Subscript) and isinstance(x.value, ast.Attribute) and x.value.attr in staged]
+        ok = True
+        for sb in subs:
+            try:
+                v = ast.literal_eval(sb.slice)
+            except Exception:
+                v = None
+            ok = ok and v == 0
+        attrs = [x for x in ast.walk(r.value) if isinstance(x, ast.Attribute) and isinstance(x.ctx, ast.Load) and x.attr not in staged
+                 and isinstance(x.value, ast.Name) and x.value.id == "self" and not any(x is s_.value for s_ in subs)]
+        ok = ok and (bool(subs) or any(a.attr in direct for a in attrs)) and all(a.attr in direct or a.attr in staged for a in attrs)
+        ctx.check(ok, rule, f, r, "consumed is the count of source bytes (first stage)",
+                  f"`{norm(r)}`: SevenZipCompressor.consumed does not return the first stage's counter (`_unpacksizes[0]`, which compress() raises by the length of every block it read from "
+                  "the source): a later stage only moves when the stages before it emit output (LZMA2 before 7zAES buffers a full block), so a source that fails after part of it was "
+                  "taken is held for untouched - close() completes and a member written after the failure does not extract", construct="consumed counts a later stage")
+
+
 def run(ctx: Ctx) -> None:
+    r15_15(ctx)
+    from . import c07 as _c07
+    _c07.r07_8(ctx)  # a failed only-write of an append session leaves a folder without substreams: its count must be written
     r15_14(ctx)
     r15_13(ctx)
     r15_12(ctx)
